@@ -55,6 +55,9 @@ CountVectors == {c \in [1..4 -> 0..MaxRowsKeep] : NRowsOf(c) >= 1 /\ NRowsOf(c) 
 \* round(sqrt((x-gt)/Scale) * res) = the least r with 4 res^2 (x-gt) <= (2r+1)^2 * Scale (exact ties flagged by IsTie)
 RoundedSqrt(res, d) == Min({r \in 0..(res * SqrtBound + 1) : 4 * res * res * d <= (2 * r + 1) * (2 * r + 1) * Scale})
 IsTie(res, d) == \E r \in 0..(res * SqrtBound + 1) : 4 * res * res * d = (2 * r + 1) * (2 * r + 1) * Scale
+\* at an exact tie sqrt(d/Scale)*res = r + 1/2 the rounding is IEEE round-half-to-even (numpy's and Python's round): the even
+\* one of r, r+1.  Judged only where the tie is exact in binary floating point (Scale a power of two: the dyadic grid).
+RoundedSqrtEven(res, d) == LET r == RoundedSqrt(res, d) IN IF IsTie(res, d) /\ r % 2 = 1 THEN r + 1 ELSE r
 \* value as <<"id", x>> (returned unchanged), <<"int", n>>
 FWSqrt(res, gt, x) == IF x < gt THEN <<"id", x>> ELSE IF x = gt THEN <<"int", 0>> ELSE <<"int", RoundedSqrt(res, x - gt)>>
 
@@ -87,5 +90,10 @@ FWShape == pc = "applied" =>
     /\ (fw[3] > fw[2] => v[1] = "int" /\ v[2] >= 0)
 EmitPresets == pc = "built" => PrintT(<<"PRESETS", list, Cardinality(coll)>>)
 EmitKeep == pc = "decided" => PrintT(<<"KEEP", counts, Keep(counts), Ambiguous(counts)>>)
-EmitFW == pc = "applied" => PrintT(<<"FW", fw, FWSqrt(fw[1], fw[2], fw[3]), fw[3] > fw[2] /\ IsTie(fw[1], fw[3] - fw[2])>>)
+TieIsHalfEven == pc = "applied" /\ fw[3] > fw[2] =>
+    LET r == RoundedSqrt(fw[1], fw[3] - fw[2]) e == RoundedSqrtEven(fw[1], fw[3] - fw[2]) IN
+    /\ e % 2 = 0 \/ ~IsTie(fw[1], fw[3] - fw[2])
+    /\ e \in {r, r + 1} /\ (~IsTie(fw[1], fw[3] - fw[2]) => e = r)
+EmitFW == pc = "applied" => PrintT(<<"FW", fw, FWSqrt(fw[1], fw[2], fw[3]), fw[3] > fw[2] /\ IsTie(fw[1], fw[3] - fw[2]),
+                                     IF fw[3] > fw[2] THEN RoundedSqrtEven(fw[1], fw[3] - fw[2]) ELSE 0>>)
 =============================================================================
